@@ -3,14 +3,14 @@ import sys
 
 import numpy as np
 
-from checks.common import AFF
+from checks.common import AFF, medium_diagram
 from mc.enumerate import bars, multisets_upto, distinct_permutations
 from oracles import landscape as OL
 from oracles import plfun as P
 
 PROPERTY = "C03"
 RULE = (
-    "ALL multisets of <= n bars with integer endpoints in {0..G}, b<d (nested, overlapping, disjoint, "
+    "medium diagrams of 6..10 (thorough ..16) bars (Weyl family, lattice-rounded and generic) in 4 arrangements; ALL multisets of <= n bars with integer endpoints in {0..G}, b<d (nested, overlapping, disjoint, "
     "touching, equal births/deaths, repeated bars); per diagram: every row order (n<=3; reversal and "
     "rotation beyond), exact integer translations by -1,-2,-3,-5 and 2^20 (negative births, births at exactly 0), 4 affine variants, int array, hom_deg 0/1 with a decoy diagram in the other slot. "
     "Oracle: for every depth k=1..n+1 persim's PL function vs the k-th largest tent, exact rational "
@@ -26,10 +26,18 @@ BOUNDS = {"quick": [{"n": 4, "G": 5}], "thorough": [{"n": 6, "G": 5}, {"n": 4, "
 
 
 def bounds(tier):
-    return {"spaces": BOUNDS[tier], "aff": AFF[1:]}
+    return {"spaces": BOUNDS[tier], "aff": AFF[1:], "medium_family": MEDIUM[tier]}
+
+
+MEDIUM = {"quick": {"n": [6, 7, 8, 10], "k": 4}, "thorough": {"n": [6, 7, 8, 10, 12, 16], "k": 8}}
 
 
 def cases(tier):
+    m = MEDIUM[tier]
+    for lat in (True, False):
+        for n in m["n"]:
+            for k in range(m["k"]):
+                yield {"kind": "medium", "n": n, "k": k, "lattice": lat}
     for sp in BOUNDS[tier]:
         for m in multisets_upto(bars(sp["G"]), sp["n"], min_size=1):
             yield {"D": [list(map(float, b)) for b in m]}
@@ -97,7 +105,22 @@ def compare(ctx, D, cp, first_copied, tol, what, sig):
     return False
 
 
+def run_medium(case, ctx):
+    """6..16 bars (Weyl family; half-integer-rounded with many coincidences, or generic): beyond the
+    exhaustive multiset space, same oracle."""
+    D = medium_diagram(int(case["n"]), int(case["k"]), bool(case["lattice"]))
+    ctx.state(("medium", case["n"], case["k"], case["lattice"]))
+    tol = 0 if case["lattice"] else 1e-9 * 20
+    for what, Dv in (("as generated", D), ("reversed", D[::-1]), ("rotated", D[3:] + D[:3]), ("translated by -6", [[b - 6.0, d - 6.0] for b, d in D])):
+        _, cp, fc = build(ctx, [np.array(Dv, dtype=float)], 0)
+        compare(ctx, Dv, cp, fc, tol, "medium diagram (%s)" % what, "landscape-value-medium")
+    ctx.nontriv("medium_diagram_%d_bars" % len(D))
+    ctx.outcome(("medium", case["n"], case["k"], case["lattice"]))
+
+
 def run_case(case, ctx):
+    if case.get("kind") == "medium":
+        return run_medium(case, ctx)
     D = case["D"]
     n = len(D)
     ctx.state(D)
